@@ -201,42 +201,32 @@ theorem castVote_ok {s1 s' : State} {a : Nat} {ws : List GP} (hc : s1.castVote a
     exact ⟨by omega, rfl, rfl, rfl, rfl⟩
 
 theorem castVote_track {s1 s' : State} {a : Nat} {ws : List GP} (hk : KeysNodup s1.stk)
-    (h : Track s1 s1.stk) (hm : MinInv s1) (hnone : ∀ val, alookup (a, val) s1.dvp = none)
-    (hc : s1.castVote a ws = .ok s') : Track s' s'.stk ∧ MinInv s' ∧ s'.stk = s1.stk := by
+    (h : Track s1 s1.stk) (hnone : ∀ val, alookup (a, val) s1.dvp = none)
+    (hc : s1.castVote a ws = .ok s') : Track s' s'.stk ∧ s'.stk = s1.stk := by
   obtain ⟨hlow, hvotes, hdvp, hstk, hmin⟩ := castVote_ok hc
   have hkb : KeysNodup (s1.breakdown a) := KeysNodup_filter _ hk
-  refine ⟨?_, ?_, hstk⟩
-  · intro a' v' hv'
-    rw [hvotes] at hv'
-    rw [hstk, hdvp]
-    by_cases ha : a' = a
-    · subst ha
-      rw [alookup_aset_self] at hv'
-      cases hv'
-      refine ⟨fun val => ?_, rfl⟩
-      show (alookup (a', val) (saveAll (s1.breakdown a') s1.dvp)).getD 0 = _
-      rw [alookup_saveAll hkb, hnone val]
-      show ((alookup (a', val) (s1.stk.filter fun x => x.1.1 = a')).orElse fun _ => none).getD 0 = _
-      rw [alookup_filter_fst]
-      cases hh : alookup (a', val) s1.stk <;> simp [pOf, hh]
-    · rw [alookup_aset_ne ha] at hv'
-      have := h a' v' hv'
-      refine ⟨fun val => ?_, this.2⟩
-      rw [← this.1 val]
-      show (alookup (a', val) (saveAll (s1.breakdown a) s1.dvp)).getD 0 = _
-      rw [alookup_saveAll hkb]
-      show ((alookup (a', val) (s1.stk.filter fun x => x.1.1 = a)).orElse fun _ => _).getD 0 = _
-      rw [alookup_filter_fst_other ha]; rfl
-  · intro a' v' hv'
-    rw [hvotes] at hv'
-    rw [hmin]
-    by_cases ha : a' = a
-    · subst ha
-      rw [alookup_aset_self] at hv'
-      cases hv'
-      exact hlow
-    · rw [alookup_aset_ne ha] at hv'
-      exact hm a' v' hv'
+  refine ⟨?_, hstk⟩
+  intro a' v' hv'
+  rw [hvotes] at hv'
+  rw [hstk, hdvp]
+  by_cases ha : a' = a
+  · subst ha
+    rw [alookup_aset_self] at hv'
+    cases hv'
+    refine ⟨fun val => ?_, rfl⟩
+    show (alookup (a', val) (saveAll (s1.breakdown a') s1.dvp)).getD 0 = _
+    rw [alookup_saveAll hkb, hnone val]
+    show ((alookup (a', val) (s1.stk.filter fun x => x.1.1 = a')).orElse fun _ => none).getD 0 = _
+    rw [alookup_filter_fst]
+    cases hh : alookup (a', val) s1.stk <;> simp [pOf, hh]
+  · rw [alookup_aset_ne ha] at hv'
+    have := h a' v' hv'
+    refine ⟨fun val => ?_, this.2⟩
+    rw [← this.1 val]
+    show (alookup (a', val) (saveAll (s1.breakdown a) s1.dvp)).getD 0 = _
+    rw [alookup_saveAll hkb]
+    show ((alookup (a', val) (s1.stk.filter fun x => x.1.1 = a)).orElse fun _ => _).getD 0 = _
+    rw [alookup_filter_fst_other ha]; rfl
 
 /-- a state in which delegators without a vote have no recorded power either -/
 def DvpClean (s : State) : Prop := ∀ a val, alookup a s.votes = none → alookup (a, val) s.dvp = none
@@ -269,26 +259,26 @@ theorem castVote_clean {s1 s' : State} {a : Nat} {ws : List GP} (h : DvpClean s1
 /-! ### hook -/
 
 theorem processHook_track {s : State} {T : PTable} {a val : Nat} {v : Vote} {new : Option Int}
-    (hk : KeysNodup T) (h : Track s T) (hm : MinInv s) (hc : DvpClean s) (hv : alookup a s.votes = some v) :
+    (hk : KeysNodup T) (h : Track s T) (hc : DvpClean s) (hv : alookup a s.votes = some v) :
     let s' := s.processHook a val v (pOf s.dvp a val) (new.getD 0)
-    Track s' (upd T (a, val) new) ∧ MinInv s' ∧ DvpClean s' := by
+    Track s' (upd T (a, val) new) ∧ DvpClean s' := by
   intro s'
   have hother : ∀ a', a' ≠ a → ∀ val', pOf (upd T (a, val) new) a' val' = pOf T a' val' :=
     fun a' ha val' => pOf_upd_ne T new (fun e => ha (by cases e; rfl))
   have hpother : ∀ a', a' ≠ a → powerOf (upd T (a, val) new) a' = powerOf T a' :=
     fun a' ha => powerOf_upd_other T new (fun e => ha e.symm)
-  show Track (s.processHook a val v (pOf s.dvp a val) (new.getD 0)) _ ∧ MinInv (s.processHook a val v (pOf s.dvp a val) (new.getD 0)) ∧ DvpClean (s.processHook a val v (pOf s.dvp a val) (new.getD 0))
+  show Track (s.processHook a val v (pOf s.dvp a val) (new.getD 0)) _ ∧ DvpClean (s.processHook a val v (pOf s.dvp a val) (new.getD 0))
   unfold State.processHook
   simp only
   split
-  · refine ⟨?_, revokeVote_min hm, revokeVote_clean hc⟩
+  · refine ⟨?_, revokeVote_clean hc⟩
     intro a' v' hv'
     have := revokeVote_track (a := a) (v := v) h a' v' hv'
     have ha : a' ≠ a := by
       intro e; subst e; rw [revokeVote_votes, alookup_aerase_self] at hv'; cases hv'
     exact ⟨fun val' => by rw [this.1 val', hother a' ha], by rw [this.2, hpother a' ha]⟩
   · rename_i hge
-    refine ⟨?_, ?_, ?_⟩
+    refine ⟨?_, ?_⟩
     · intro a' v' hv'
       by_cases ha : a' = a
       · subst ha
@@ -322,17 +312,6 @@ theorem processHook_track {s : State} {T : PTable} {a val : Nat} {v : Vote} {new
         split
         · simp [pOf, alookup_aerase_ne (hne val')]
         · simp [pOf, alookup_aset_ne (hne val')]
-    · intro a' v' hv'
-      by_cases ha : a' = a
-      · subst ha
-        have hv'' : some (⟨v.vp + (new.getD 0 - pOf s.dvp a' val), v.weights⟩ : Vote) = some v' := by
-          rw [← hv']; exact (alookup_aset_self _ _ _).symm
-        cases hv''
-        show s.minVP ≤ v.vp + (new.getD 0 - pOf s.dvp a' val)
-        omega
-      · have hv'' : alookup a' s.votes = some v' := by
-          rw [← hv']; exact (alookup_aset_ne ha _ _).symm
-        exact hm a' v' hv''
     · intro a' val' hv'
       by_cases ha : a' = a
       · subst ha
